@@ -19,14 +19,15 @@ def configs(tier):
     cs = []
     def add(sp, ops, output=-1, **kw):
         kw.setdefault('strategy', 'tree'); kw.setdefault('solver_timeout_ms', 5000); kw.setdefault('max_paths', 8)
-        cs.append(Config('%s-%s-out%d' % (short(sp), ops.replace(',', ''), output), 'C07', [sp, ops, output], **kw))
+        cs.append(Config('%s-%s-out%d' % (short(sp), ops.replace(',', '').replace('?', 'x'), output), 'C07', [sp, ops, output], **kw))
     if tier == 'quick':
         add(spec('localp', 'localp', 2, 1, 2, order=1), 'Sv,L,Sv'); add(spec('localp', 'localp', 2, 2, 2, order=1), 'Sv,L', 0); add(spec('localp', 'semi-localp', 2, 2, 1, order=2), 'Sc,L,Sv,M', -1)
         add(spec('localp', 'localp-zero', 2, 1, 2, order=3, limits=2), 'Sv,L,C'); add(spec('localp', 'localp-boundary', 1, 1, 2, order=1), 'Sf,L,Sd,L'); add(spec('localp', 'localp', 2, 1, 1, order=0), 'Ss,L,Sp,L', max_paths=4)
         add(spec('localp', 'localp', 2, 1, 1, order=1), 'Sc,C,Sv,L,L')
         add(spec('localp', 'localp', 1, 2, 2, order=1), 'Sv', -1, max_paths=48); add(spec('localp', 'localp-zero', 1, 3, 1, order=2), 'Sv', -1, max_paths=32)   # several outputs, all active: the per-output max of the classic criterion
-        add(spec('wavelet', 'wavelet', 1, 1, 1, order=1), 'Sc,L,C'); add(spec('wavelet', 'wavelet', 2, 1, 1, order=1), 'Sf,L')
+        add(spec('wavelet', 'wavelet', 1, 1, 1, order=1), 'Sc,L,C'); add(spec('wavelet', 'wavelet', 1, 1, 0, order=3, limits=1), 'Sc,L,Sc', max_paths=12); add(spec('wavelet', 'wavelet', 2, 1, 0, order=3, limits=2), 'Sc,L,Sc', max_paths=8); add(spec('localp', 'localp-boundary', 2, 1, 1, order=1, limits=2), 'Sc,L,Sc')   # classic refinement under level limits add(spec('wavelet', 'wavelet', 2, 1, 1, order=1), 'Sf,L')
         add(spec('sequence', 'rleja', 2, 1, 2), 'Sg,L,A,L', 0); add(spec('sequence', 'leja', 2, 2, 1), 'A,C,U,L', 0); add(spec('global', 'clenshaw-curtis', 2, 1, 1), 'A,L,U,M,L', 0)
+        add(spec('global', 'clenshaw-curtis', 2, 1, 1), '?,?,L', 0, max_paths=60, strategy='tree'); add(spec('sequence', 'rleja', 2, 1, 1), '?,?,L', 0, max_paths=70); add(spec('localp', 'localp', 2, 1, 1, order=1), '?,?,L', -1, max_paths=90)   # solver-enumerated histories
         add(spec('global', 'leja', 2, 1, 2), 'Sg,L,C', 0); add(spec('global', 'clenshaw-curtis', 2, 1, 1), 'Ud,L', 0); add(spec('sequence', 'rleja', 2, 1, 1), 'Ud,L,A,L', 0); add(spec('fourier', 'fourier', 2, 1, 1), 'Ud,L', 0); add(spec('fourier', 'fourier', 2, 1, 1), 'A,L,U', 0)
     else:
         for rule in LOCAL_RULES:
@@ -37,6 +38,7 @@ def configs(tier):
             add(spec('localp', rule, 3, 1, 1, order=1), 'Sv,L,Sc,L', max_paths=20)
             add(spec('localp', rule, 1, 2, 3, order=2), 'Sv,L,Sv,L', 1, max_paths=30)
         for order in (1, 3):
+            for lim in (1, 2): add(spec('wavelet', 'wavelet', 1, 1, 0, order=order, limits=lim), 'Sc,L,Sc,L,Sc', max_paths=30); add(spec('wavelet', 'wavelet', 2, 1, 0, order=order, limits=lim), 'Sc,L,Sc', max_paths=20)
             for ops in ('Sc,L,C', 'Sf,L,Sd', 'Ss,L,M,L', 'Sp,L'): add(spec('wavelet', 'wavelet', 1, 1, 1, order=order), ops, max_paths=20)
             add(spec('wavelet', 'wavelet', 2, 1, 1, order=order), 'Sc,L', max_paths=15)
         for rule in SEQUENCE_RULES:
@@ -46,13 +48,16 @@ def configs(tier):
             for ops in GLOBAL_SEQ: add(spec('global', rule, 2, 1, 2), ops, 0, max_paths=25)
         for rule in ('clenshaw-curtis', 'fejer2', 'rleja-odd', 'gauss-patterson'):
             for ops in ('A,L,A', 'A,C,U,L', 'A,L,U,M,L', 'Ud,L,A,L', 'A,L,Ud,L'): add(spec('global', rule, 2, 1, 1), ops, 0, max_paths=25)
+        for sp, out in ((spec('global', 'clenshaw-curtis', 2, 1, 1), 0), (spec('global', 'leja', 2, 2, 1), 0), (spec('sequence', 'rleja', 2, 1, 1), 0), (spec('sequence', 'min-delta', 2, 2, 2), 1), (spec('fourier', 'fourier', 2, 1, 1), 0),
+                        (spec('localp', 'localp', 2, 1, 1, order=1), -1), (spec('localp', 'semi-localp', 2, 2, 1, order=2), -1), (spec('localp', 'localp-boundary', 1, 1, 2, order=1), 0), (spec('wavelet', 'wavelet', 1, 1, 1, order=1), -1)):
+            add(sp, '?,?,?,L', out, max_paths=500, time_budget_s=400); add(sp, '?,L,?,?', out, max_paths=300, time_budget_s=300)
         for ops in ('A,L,A', 'A,C,U,L', 'U,L,M,L', 'Ud,L', 'A,L,Ud,L'): add(spec('fourier', 'fourier', 2, 1, 1), ops, 0, max_paths=15, timeout=300)
     return cs
 
 
 def run(tier, seed, only=None):
     cs = filt(configs(tier), only)
-    META['bounds'] = {'dims': '1..3', 'depth': '1..3', 'operation sequences': '<= 5 steps after the initial load', 'path classes per configuration': '8 (quick) / 30 (thorough)'}
+    META['bounds'] = {'dims': '1..3', 'depth': '1..3', 'operation sequences': '<= 5 steps after the initial load; listed sequences plus solver-enumerated ones (each ? ranges over the 7-9 operations of the family: quick 2 free steps, thorough 3)', 'path classes per configuration': '8 (quick) / 30 (thorough)'}
     ks = ksets(tier) if (not only or 'K-sets' in only) else []
     if only: ks = [k for k in ks if __import__('re').search(only, k.name)]
     META.setdefault('functions_encoded', []).append('MultiIndexSet::{addSortedIndexes, operator+=, operator-, getSlot, removeIndex, MultiIndexSet(Data2D)} and StorageSet::addValues via clang -O1 IR -> ir2c -> CBMC (engine K): for ALL strictly sorted index sets of the enumerated sizes '
